@@ -685,6 +685,8 @@ def in2(F, R):
         if not eits:
             continue
         done = True
+        # a chain that only feeds a `collect()` which is then walked is that walk's source, not a second listing
+        eits = [it for it in eits if not any(o is not it and mentions(o.it, lambda x: strip_sites(x) == strip_sites(it.it)) for o in eits)]
         for it in eits:
             if getattr(it, "breaks", None):
                 R.bad("IN2", "IN2/Sodg::inspect/edge-walk-stops-early", it.where(),
